@@ -208,6 +208,8 @@ def run_unit(unit, st, tier):
         one(dict(base, lower=low), True)
     # bound 2: spelling x rotation of one plasmid (the rotated plasmid in lower case; and everything in lower case)
     for which in range(k + 1):
+        if tier == "quick" and (scheme != 0 or pj is not None):
+            continue
         for s2 in rotations_of(base, which, goals=False):
             one(dict(s2, lower=[which]), True)
             one(dict(s2, lower=list(range(k + 1))), True)
@@ -218,7 +220,7 @@ def run_unit(unit, st, tier):
         one(dict(base, decor=decor), True, outcome="product-or-violation/annotated")
         st.goal("annotated-participants")
         for which in range(k + 1):
-            if decor > 1 and tier == "quick" and which != 1:
+            if decor > 1 and tier == "quick" and (which != 1 or scheme != 0 or pj is not None):
                 continue
             for s2 in rotations_of(base, which, goals=False):
                 if decor > 1 and tier == "quick":
